@@ -30,7 +30,7 @@ func VerifHarness_C07_FailedTxPoolFee() {
 }
 
 func verifGasPrice() uint32 {
-	if verifConfig("concretePrices") == 1 {
+	if verifConfig("concretePrices") == 1 && verifConfig("symGasPrice") != 1 {
 		return 1
 	}
 	return verifU32Range("gasPrice", 1, 1000000)
